@@ -56,6 +56,7 @@ def setup_inputs(ex: Exec, unit, contract: Contract):
                 continue
             raise OutsideSubset(f"no type for kw-only parameter {p}")
         ex.locals[p] = ex.mk(typ, p)
+    ex.root_env = ex.locals
     # force creation of every declared access path so that old() and the frame see it
     for path in contract.types:
         if "." in path or "[" in path:
